@@ -137,6 +137,14 @@ theorem mapM_ok {α β ε : Type} (f : α → Except ε β) (g : α → β) (l :
     rw [List.mapM_cons, h a (by simp), ih (fun x hx => h x (by simp [hx]))]
     rfl
 
+theorem mapM_error {α β ε : Type} (f : α → Except ε β) (g : α → β) (l1 : List α) (a : α) (l2 : List α) (e : ε)
+    (h1 : ∀ x ∈ l1, f x = .ok (g x)) (ha : f a = .error e) : (l1 ++ a :: l2).mapM f = .error e := by
+  induction l1 with
+  | nil => rw [List.nil_append, List.mapM_cons, ha]; rfl
+  | cons x xs ih =>
+    rw [List.cons_append, List.mapM_cons, h1 x (by simp), ih (fun y hy => h1 y (by simp [hy]))]
+    rfl
+
 /-- `transpose_spec` in functional form: a full section of `size` blooms yields 2048 vectors of `size/8` bytes with
     `bit (vector i) n = bit (bloom n) i`. Needs `size % 8 = 0` (NewGenerator) and `2048 ≤ size` (Bitset's comparison). -/
 theorem generateSection_spec (size : Nat) (h8 : size % 8 = 0) (h2048 : 2048 ≤ size) (blooms : List Bytes)
